@@ -225,6 +225,9 @@ pub fn check_config(cfg: &Config, text: &str, dj: &str, base: &Base, json_leaf_c
             "junit" => match parse_junit(&o.out) {
                 Err(e) => bad("junit-not-well-formed", e),
                 Ok(cases) => {
+                    for pb in junit_counter_problems(&o.out) {
+                        bad("junit", pb);
+                    }
                     if cases.len() != 1 {
                         bad("junit", format!("{} test cases for one pair", cases.len()));
                     }
@@ -339,6 +342,9 @@ pub fn check_multi(files: &[File], dj: &str, acc: &mut Acc) {
             "junit" => match parse_junit(&o.out) {
                 Err(e) => bad("not-well-formed", e),
                 Ok(cases) => {
+                    for pb in junit_counter_problems(&o.out) {
+                        bad("counters", pb);
+                    }
                     let marks: Vec<String> = cases.iter().map(|c| c.mark.clone()).collect();
                     let want: Vec<String> = bases.iter().map(|b| match b.file { St::Pass => "pass", St::Fail => "fail", St::Skip => "skip" }.to_string()).collect();
                     if marks != want {
